@@ -64,6 +64,8 @@ Next ==
         /\ steps' = steps /\ l' = l + 1 /\ lost' = FALSE /\ mech' = TRUE
         /\ starve' = Fn({}, LAMBDA x : [n |-> 0, k |-> 0])
      ELSE IF "res" \in DOMAIN e /\ e.res = "hang" THEN Reject(<<"the call did not return", e.op>>)
+     ELSE IF "res" \in DOMAIN e /\ e.op = "set" /\ e.res = "nospace"
+          THEN Reject(<<"a write found no directory to write to on roots with room (every root always offers one)">>)
      ELSE IF lost \/ "fs" \notin DOMAIN e \/ Len(e.fs.added) > 1 THEN
         \* the walk was not taken at quiescence (a stranded cleaner job): the rest of this trace is not judged
         /\ UNCHANGED <<dvars, mech, starve>> /\ l' = l + 1 /\ lost' = TRUE
